@@ -610,6 +610,8 @@ Proof.
 Qed.
 
 Lemma tie_fp_len : fp_len = 4%nat. Proof. reflexivity. Qed.
+(* zero(): the loop starts at index 0 and stores the byte 0 (literals of the source, Gen/Xhdkeychain.lits_zero) *)
+Lemma tie_zero_lits : (zero_from, zero_byte) = (0%nat, 0). Proof. reflexivity. Qed.
 
 Lemma child_ok s ds k i : inv s ds -> step_ok s ds (child D s k i) (tstep D ds (Child k i)).
 Proof.
